@@ -976,12 +976,14 @@ class _FunctionInformationCollector(ast.RopeNodeVisitor):
 
     @contextmanager
     def _handle_loop_context(self, node):
-        if node.lineno < self.start:
+        counted = node.lineno < self.start
+        if counted:
             self.loop_depth += 1
         try:
             yield
         finally:
-            self.loop_depth -= 1
+            if counted:
+                self.loop_depth -= 1
 
 
 def _get_argnames(arguments):
